@@ -30,6 +30,14 @@ func runC11(r *run) {
 	canaryPath := filepath.Join(r.outdir, "canary.txt")
 	if !childMode && replayFile == "" {
 		must(os.WriteFile(canaryPath, []byte(c11Canary), 0o644))
+		// the same canary under the name as the in-memory loaders spell it (they drop a leading
+		// slash and resolve against the referrer): reachable from the working directory only
+		must(os.WriteFile(filepath.Join(r.outdir, "canary_rel.txt"), []byte(c11Canary), 0o644))
+		must(os.MkdirAll(filepath.Join(r.outdir, strings.TrimPrefix(filepath.Dir(canaryPath), "/")), 0o755))
+		must(os.WriteFile(filepath.Join(r.outdir, strings.TrimPrefix(canaryPath, "/")), []byte(c11Canary), 0o644))
+	}
+	if !childMode {
+		must(os.Chdir(r.outdir))
 	}
 	gen := func(emit func(caseT)) {
 		n := 2500
@@ -129,6 +137,8 @@ func runC11(r *run) {
 			"{% ssi \"" + canaryPath + "\" %}", "{% include \"" + canaryPath + "\" %}", "{% ssi \"" + canaryPath + "\" parsed %}",
 			"{% set p = \"" + canaryPath + "\" %}{% include p %}", "{% extends \"" + canaryPath + "\" %}", "{% import \"" + canaryPath + "\" m %}",
 			"{% include \"" + canaryPath + "\" if_exists %}ok",
+			"{% ssi \"canary_rel.txt\" %}", "{% include \"canary_rel.txt\" %}", "{% ssi \"canary_rel.txt\" parsed %}", "{% set p = \"canary_rel.txt\" %}{% include p %}",
+			"{% extends \"canary_rel.txt\" %}", "{% import \"canary_rel.txt\" m %}", "{% include \"./canary_rel.txt\" if_exists %}ok",
 		} {
 			w := &world{files: []map[string]string{{"main.tpl": src}}}
 			emit(caseT{"canary", w.args("main.tpl", nil)})
